@@ -16,6 +16,7 @@ pub fn mks() -> String { String::from("made") }
 pub struct W(pub u8);               // a field type with a non-trivial From
 impl From<u8> for W { fn from(x: u8) -> W { W(x + 100) } }
 impl Default for W { fn default() -> W { W(42) } }
+pub const BYTES: &[u8; 3] = &[1, 2, 3];
 '''
 # field types: (sexp, rust, Debug text of Default::default())
 U8 = (sx.tid('u8'), 'u8')
@@ -25,6 +26,7 @@ WT = (sx.tid('W'), 'W')
 I32 = (sx.tid('i32'), 'i32')
 CH = (sx.tid('char'), 'char')
 BL = (sx.tid('bool'), 'bool')
+SL = (sx.tref(sx.tslice(sx.tid('u8')), lt='static'), "&'static [u8]")
 
 # (field type, default expression tokens or None, reference Rust expression for the expected value)
 # reference: `Into::<T>::into(e)` exactly when e is a string literal or a path; `e` otherwise; `T::default()` without
@@ -52,6 +54,10 @@ FIELD_CHOICES = [
     (U8, '_', '<u8 as Default>::default()'),       # `_` means no value
     (STR, ':: std :: string :: String :: new ( )', '::std::string::String::new()'),
     (STR, 'r"raw"', 'Into::<String>::into(r"raw")'),
+    # a PARENTHESISED path is not a path: no Into - the value reaches the field by an ordinary (unsizing) coercion, for
+    # which no `From` impl exists
+    (SL, '( BYTES )', '(BYTES)'),
+    (U8, '( N7 )', '(N7)'),
 ]
 
 
